@@ -16,6 +16,7 @@ From SCC Require Import Model.Check Model.Fun2Core Model.Backend Model.Focus Mod
      Model.Linearize Model.LinCheck Model.Capacity Model.WtDefs Model.X86 Model.A64 Model.RV.
 From SCC Require Import Proof.SubstGraph Proof.CodegenTotal Proof.CodegenX86 Proof.CodegenA64 Proof.CodegenRV
      Proof.AxToLin Proof.LinearizeProof Proof.ShrinkProof Proof.ShrinkSem Proof.ShrinkTyping Proof.WtPreserve Proof.FocusExamples Proof.WtExamples.
+From SCC Require Import Sem.FsFrag2 Proof.ShrinkExample2 Proof.ShrinkTyTop.
 Import ListNotations.
 
 (* ======================================================================================== *)
@@ -123,6 +124,57 @@ Theorem C12_shrink_preserves_typing_partial : forall f a,
 Proof. exact shrink_preserves_typing_frag. Qed.
 Print Assumptions C12_shrink_preserves_typing_partial.
 
+(* shrink_preserves_typing, second half, PROVED FOR THE WHOLE LANGUAGE on the fragment given by the boolean
+   predicate  frag2t_prog f = names_ok f && decls_ok f && gub f  (Sem/FsFrag2.v):
+     names_ok  identifiers with the same id are spelled alike (what `uniquify` establishes; wt_fs, the
+               substitution of core2axcut and its free-variable computation key on the id only)
+     decls_ok  parameter types of definitions and field types of xtors are declared (wt_fs does not ask;
+               the AxCut checker demands declared parameter types, and a lifted statement can turn a clause
+               parameter into a parameter of a definition).  NOTE: the real type checker's output is not
+               closed under the types it mentions (an xtor that is never used can carry a field of a type
+               that is never declared: corpus/fun/c15_unused_field_type.sc); such programs are OUTSIDE this
+               fragment (tag not-decls_ok of the C04 run).
+     gub       the binders of each definition are globally distinct (binders_ok asks for global distinctness;
+               unique_binders gives distinctness along each path only)
+   All constructs: continuations at i64 (_Cont/Ret), renaming cuts, data and codata (let/switch/create/invoke,
+   known cuts), eta expansion of unknown cuts and critical pairs, lifted statements (the new definition is
+   typed in the context of its parameters, its call in the context of the lifted statement; its free
+   variables are parameters), definition names pairwise distinct, binders globally distinct and <= max_id.
+   Proofs: Proof/ShrinkTy{A..J,Prog,Fv,Top}.v, ShrinkLabId.v, ShrinkOld.v, ShrinkBindersOk.v.
+   This discharges hypothesis H_shrink_wt of the composition on the fragment (C12_pipeline_wt_fragment2). *)
+Theorem C12_shrink_preserves_typing_fragment2 : forall f a,
+  frag2t_prog f = true -> wt_fs f = true -> unique_binders f = true -> ids_bounded f = true ->
+  shrink_prog f = SOk a ->
+  AxCheck.wt_ax a = true /\ pre_linear_prog a = true /\ binders_ok a = true.
+Proof. exact shrink_preserves_typing_frag2. Qed.
+Print Assumptions C12_shrink_preserves_typing_fragment2.
+
+(* ... and the UNGUARDED statement [shrink_preserves_typing] (hence hypothesis H_shrink_wt as it stands) is
+   FALSE of the checkers as defined: a definition with a parameter of an undeclared type passes wt_fs,
+   unique_binders and ids_bounded, shrinking succeeds, and the AxCut checker rejects the output ("parameter of
+   undeclared type").  A mismatch between Sem/FsCheck.v and Sem/AxCheck.v, not a defect of core2axcut. *)
+Theorem C12_shrink_preserves_typing_refuted :
+  exists f a, wt_fs f = true /\ unique_binders f = true /\ ids_bounded f = true /\ shrink_prog f = SOk a /\
+              AxCheck.wt_ax a = false /\ frag2t_prog f = false.
+Proof. exact shrink_typing_unguarded_refuted. Qed.
+Print Assumptions C12_shrink_preserves_typing_refuted.
+
+(* non-vacuity: the real focused program of Proof/ShrinkExample2.v (lists, a lazy pair, recursion, two
+   lifted statements) lies in the fragment; its image passes wt_ax, pre_linear, binders_ok, prog_ok *)
+Theorem C12_example_fragment2 :
+  match frag2_focused with
+  | Some p =>
+      match shrink_prog p with
+      | SOk q => frag2t_prog p && decls_ok p && wt_fs p && unique_binders p && ids_bounded p
+                 && AxCheck.wt_ax q && pre_linear_prog q && binders_ok q && prog_ok q
+                 && Nat.eqb (List.length (filter (fun d => AxCheck.is_lifted_name (dname d)) (pdefs q))) 2
+      | SErr _ => false
+      end
+  | None => false
+  end = true.
+Proof. exact frag2t_example_ok. Qed.
+Print Assumptions C12_example_fragment2.
+
 (* The checker run on the output of shrinking against the hypothesis of the linearization theorem:
    wt_ax implies the typing part of prog_ok; what prog_ok demands in addition is exactly
    [pre_linear_prog] (no explicit substitution, no annotated closure environment - wt_ax accepts
@@ -214,6 +266,25 @@ Theorem C12_pipeline_wt_partial :
     (forall lc, within_capacity_rv l = true -> exists code lc', rv_compile l lc = Backend.Ok (code, main_arity l, lc')).
 Proof. exact pipeline_wt_partial_lemma. Qed.
 Print Assumptions C12_pipeline_wt_partial.
+
+(* THE COMPOSITION WITH THE SHRINK LINK DISCHARGED: instead of hypothesis H_shrink_wt (which is false as it
+   stands, C12_shrink_preserves_typing_refuted) the boolean condition that the focused program lies in the
+   fragment of C12_shrink_preserves_typing_fragment2. *)
+Theorem C12_pipeline_wt_fragment2 :
+  H_fun2core_wt -> H_focus_wt ->
+  forall src p, Check.check src = COk p -> barendregt p = true ->
+  (forall c f, compile_prog p = Fun2Core.Ok c -> focus_prog c = Backend.Ok f -> frag2t_prog f = true) ->
+  exists c f a,
+    compile_prog p = Fun2Core.Ok c /\ wt_core c = true /\
+    focus_prog c = Backend.Ok f /\ wt_fs f = true /\
+    shrink_prog f = SOk a /\ AxCheck.wt_ax a = true /\ prog_ok a = true /\
+    let l := linearize a in
+    lin_check_prog l = true /\
+    (forall lc, within_capacity_x86 l = true -> exists code lc', x86_compile l lc = Backend.Ok (code, main_arity l, lc')) /\
+    (forall lc, within_capacity_a64 l = true -> exists code lc', a64_compile l lc = Backend.Ok (code, main_arity l, lc')) /\
+    (forall lc, within_capacity_rv l = true -> exists code lc', rv_compile l lc = Backend.Ok (code, main_arity l, lc')).
+Proof. exact pipeline_wt_fragment2_lemma. Qed.
+Print Assumptions C12_pipeline_wt_fragment2.
 
 (* the hypotheses are the statements above *)
 Theorem C12_hypotheses_are_the_statements :
